@@ -156,7 +156,8 @@ TyOf(v, s) == IF v.t = "l" THEN "list" ELSE v.t
 Store(s, n, v) ==
     LET loc == HasLocals(s) /\ n \notin s.gl
         key == IF loc THEN s.fn \o "." \o n ELSE n
-        s1 == [s EXCEPT !.ty = (key :> ((IF key \in DOMAIN s.ty THEN s.ty[key] ELSE {}) \cup {TyOf(v, s)})) @@ @] IN
+        s1 == [s EXCEPT !.ty = (key :> ((IF key \in DOMAIN s.ty THEN s.ty[key] ELSE {}) \cup {TyOf(v, s)})) @@ @,
+                        !.ty0 = IF key \in DOMAIN @ THEN @ ELSE (key :> TyOf(v, s)) @@ @] IN
     IF loc THEN [s1 EXCEPT !.l = (n :> v) @@ @]
     ELSE [s1 EXCEPT !.g = (n :> v) @@ @,
                     !.born = IF s.inloop /\ n \notin DOMAIN s.g THEN @ \cup {n} ELSE @,
@@ -217,9 +218,14 @@ FmtParts(ps, i, acc, s) ==
     ELSE LET r == Eval(ps[i].e, s) IN
          IF IsErr(r.v) \/ r.v.t \in {"l", "none"} THEN R(ERR, r.s) ELSE FmtParts(ps, i + 1, Cat(acc, ToToks(r.v)), r.s)
 
+(* the loop variable of a comprehension lives in its own scope: it is bound for the element expression only, it
+   does not change what the name means afterwards and it is not an assignment to the name *)
+BindRaw(s, n, v) == IF HasLocals(s) THEN [s EXCEPT !.l = (n :> v) @@ @] ELSE [s EXCEPT !.g = (n :> v) @@ @]
+Unbind(s, n) == IF HasLocals(s) THEN [s EXCEPT !.l = [m \in (DOMAIN @) \ {n} |-> @[m]]]
+                ELSE [s EXCEPT !.g = [m \in (DOMAIN @) \ {n} |-> @[m]]]
 CompList(e, var, j, stop, acc, s) ==      \* [e for var in range(stop)]
     IF j >= stop \/ ~s.ok THEN R(acc, s)
-    ELSE LET r == Eval(e, Store(s, var, VI(j))) IN
+    ELSE LET r == Eval(e, BindRaw(s, var, VI(j))) IN
          IF IsErr(r.v) THEN R(<<ERR>>, r.s) ELSE CompList(e, var, j + 1, stop, Append(acc, r.v), r.s)
 
 MinMax(f, a) ==
@@ -277,8 +283,12 @@ Eval(e, s) ==
            (IF \E i \in 1..Len(r.v) : IsErr(r.v[i]) THEN R(ERR, r.s) ELSE Alloc(r.s, r.v))
       [] e.k = "comp" -> LET c == Eval(e.count, s1) IN
            (IF IsErr(c.v) \/ c.v.t # "i" THEN R(ERR, c.s)
-            ELSE LET r == CompList(e.e, e.var, 0, c.v.v, <<>>, c.s) IN
-                 IF \E i \in 1..Len(r.v) : IsErr(r.v[i]) THEN R(ERR, r.s) ELSE Alloc(r.s, r.v))
+            ELSE LET scope == IF HasLocals(c.s) THEN c.s.l ELSE c.s.g
+                     had == e.var \in DOMAIN scope
+                     old == IF had THEN scope[e.var] ELSE ERR
+                     r == CompList(e.e, e.var, 0, c.v.v, <<>>, c.s)
+                     back == IF c.v.v <= 0 THEN r.s ELSE IF had THEN BindRaw(r.s, e.var, old) ELSE Unbind(r.s, e.var) IN
+                 IF \E i \in 1..Len(r.v) : IsErr(r.v[i]) THEN R(ERR, back) ELSE Alloc(back, r.v))
       [] e.k = "index" -> LET a == Eval(e.e, s1)  i == Eval(e.i, a.s) IN
            (IF IsErr(a.v) \/ IsErr(i.v) \/ a.v.t # "l" \/ i.v.t # "i" THEN R(ERR, i.s)
             ELSE LET xs == i.s.h[a.v.id]   n == Len(xs)   j == IF i.v.v < 0 THEN i.v.v + n ELSE i.v.v IN
@@ -396,7 +406,7 @@ PyLive(s) == SumLens(s, ReachIds(s))
 Sampled(s) == [s EXCEPT !.lv = Append(@, PyLive(s))]
 
 S0 == [g |-> [x \in {} |-> ERR], l |-> NoLocals, gl |-> {}, h |-> <<>>, out |-> <<>>, ok |-> TRUE, fuel |-> FUEL0,
-       sig |-> "n", ret |-> VNone, depth |-> 0, fn |-> "", inp |-> 1, born |-> {}, fresh |-> {}, inloop |-> FALSE, nest |-> 0, hm |-> {}, lv |-> <<>>, ty |-> [x \in {} |-> {}], feat |-> {}]
+       sig |-> "n", ret |-> VNone, depth |-> 0, fn |-> "", inp |-> 1, born |-> {}, fresh |-> {}, inloop |-> FALSE, nest |-> 0, hm |-> {}, lv |-> <<>>, ty |-> [x \in {} |-> {}], ty0 |-> [x \in {} |-> "none"], feat |-> {}]
 Init == pid \in 1..Len(Progs) /\ st = S0 /\ phase = "boot" /\ pass = 0
 Setup == /\ phase = "boot" /\ phase' = "setup" /\ pass' = 0
          /\ st' = Sampled(Exec(Prog.setup, 1, st)) /\ UNCHANGED pid
